@@ -866,7 +866,7 @@ def build(ctx):
     def frame_section():
         from pyvc import own
         own.post_all(ctx, own.table_report(PROP), replay=frame_replay)
-    # ctx.guarded('frame', frame_section)   # enabled once the tuple-path / dotted-key path preconditions of dictattr.__sub__ can be stated to the checker
+    ctx.guarded('frame', frame_section)
 
 
 def frame_replay(d):
